@@ -12,7 +12,7 @@ import (
 func init() {
 	Registry["C02"] = C02
 	Metas["C02"] = Meta{
-		Explanation: "Linearizability of cache histories is NOT decided. Decided is the clause 'each call takes effect atomically': (U1) every method that changes or conditionally keeps an entry decides through operations of the underlying map that are each atomic per key, and on every abstract path at most one of them changes the entry visibly (lazy removal of an expired entry is not a visible change); (U2) no mutation is justified by a stale observation: an unconditional map mutation (Store, LoadAndStore, LoadOrStore, Delete, LoadAndDelete) never follows an earlier observation of the map in the same call (for Range visitors: the snapshot they were handed) - check-then-act - and inside a read-modify-write closure every expiry test that the decision depends on is made on the item that very operation observed under the key's lock, not on an item captured from an earlier Load or snapshot; (U3) the same for the per-entry visitor of DeleteExpired; (U4) the structural premises for 'a completed write is never lost to a table resize and a cleared value never reappears' are restated from C03/C04 (P3-P7). The per-call decision tables themselves are decided in C01 (T3) and the atomicity of the map operations in C03/C04/C05/C13/C14.",
+		Explanation: "Linearizability of cache histories is NOT decided. Decided is the clause 'each call takes effect atomically': (U1) every method that changes or conditionally keeps an entry decides through operations of the underlying map that are each atomic per key, and on every abstract path at most one of them changes the entry visibly (lazy removal of an expired entry is not a visible change); (U2) no mutation is justified by a stale observation: an unconditional map mutation (Store, LoadAndStore, LoadOrStore, Delete, LoadAndDelete) never follows an earlier observation of the map in the same call (for Range visitors: the snapshot they were handed) - check-then-act - and inside a read-modify-write closure every expiry test that the decision depends on is made on the item that very operation observed under the key's lock, not on an item captured from an earlier Load or snapshot; (U3) the same for the per-entry visitor of DeleteExpired; (U4) the structural premises for 'a completed write is never lost to a table resize and a cleared value never reappears' are restated from C03/C04 (P3-P7); (U5) what each call does per key state is the reviewed decision table (restated from C01.T3 - the statement refers to the sequential semantics of C01). The per-call decision tables themselves are decided in C01 (T3) and the atomicity of the map operations in C03/C04/C05/C13/C14.",
 		Rule:        "one obligation per (rule, method | closure); non-trivial = decided from evaluated abstract paths or from the explored call order",
 		Assumptions: []string{"each operation of the underlying map is atomic per key (premises decided structurally in C03/C04/C05)"},
 	}
@@ -118,6 +118,26 @@ func C02(r *Run) *core.Report {
 	n2 := borrow(rep, mapProtocol(r, "C03", 0), "C02.U4", "C03.P")
 	n2 += borrow(rep, mapProtocol(r, "C04", 1), "C02.U4", "C04.P")
 	rep.MinCount("C02.U4", "premise obligations (writer validation, resize order, copy under lock, Clear)", n2, 30)
+	// U5: the statement is 'each call takes effect atomically according to the sequential TTL semantics of C01': what
+	// each call does per key state is the reviewed decision table (restated from C01.T3) - a removal or a store that
+	// the table does not list is a wrong effect whatever the interleaving (and where the evaluator lost part of a
+	// method, the missing rows show here rather than as silently unexamined paths in U1/U2)
+	n5 := 0
+	tmp := core.NewReport("C02")
+	for twin := 0; twin < 2; twin++ {
+		for _, name := range names {
+			if extra[name] {
+				continue
+			}
+			mp := methodPaths(r, twin, name)
+			if undecidedPaths(r, core.NewReport("C02"), "C02.U0", mp) {
+				continue // reported above under U0
+			}
+			tableCheck(r, tmp, "C01.T3", mp)
+		}
+	}
+	n5 = borrow(rep, tmp, "C02.U5", "C01.T3")
+	rep.MinCount("C02.U5", "premise obligations (per-call decision tables)", n5, 40)
 	return rep
 }
 
